@@ -196,6 +196,45 @@ def wave3():
         case("zed", [fn("z0", {}, SHAPE)], "w7:module path with a typing component, package target"),
         case("foo", [fn("f0", {"a": L(SHAPE)})], "x:typing component in a generic"),
     ]
+    # --- wave 8 ---
+    BIO, UNSUP = C("_io", "BytesIO"), C("io", "UnsupportedOperation")
+    NODE, UNODE, LEAF, ULEAF, UUTREE, TREE = (C("tree", q) for q in ("Node", "_Node", "Leaf", "_Leaf", "__Tree", "Tree"))
+    out += [
+        # `_io` and `io` classes in one module stub: two `from io import` lines, every name bound
+        case("foo", [fn("g3", {"a": SIO, "b": UNSUP, "c": BIO})], "w8:_io and io in one stub"),
+        case("foo", [fn("f0", {"a": UNSUP}), fn("K.m0", {"a": SIO})], "w8:_io and io in one stub"),
+        case("foo", [fn("z0", {}, D(STR, UNSUP), BIO)], "w8:_io and io in one stub"),
+        case("foo", [fn("f0", {"a": UNSUP})], "w8:io alone"),
+        # a None default on a parameter whose NON-union generic type has NoneType among its arguments
+        case("foo", [fn("f1", {"a": INT, "b": D(STR, NONE)})], "w8:None default, Dict[str, None]"),
+        case("foo", [fn("f1", {"b": T(INT, NONE)})], "w8:None default, Tuple[int, None]"),
+        case("foo", [fn("f1", {"b": L(NONE)})], "w8:None default, List[None]"),
+        case("foo", [fn("K.m1", {"a": STR, "b": G(INT, NONE, NONE)})], "w8:None default, Generator[int, None, None]"),
+        case("foo", [fn(LONG, {"second_parameter": DD(STR, NONE)})], "w8:None default, DefaultDict[str, None]"),
+        case("foo", [fn("f1", {"b": TV(NONE)})], "w8:None default, Tuple[None, ...]"),
+        case("foo", [fn("f1", {"b": TY(NONE)})], "w8:None default, Type[None]"),
+        # names of one module that differ only in leading underscores (rendered under several hash seeds)
+        case("foo", [fn("g3", {"a": NODE, "b": UNODE, "c": LEAF})], "w8:underscore twins"),
+        case("foo", [fn("g3", {"a": ULEAF, "b": LEAF, "c": UUTREE}, TREE)], "w8:underscore twins"),
+        case("utils", [fn("f2", {"a": UNODE, "b": NODE, "c": ULEAF}, T(LEAF, UUTREE, TREE))], "w8:underscore twins"),
+        case("utils", [fn("z0", {}, U(UNODE, NODE))], "w8:underscore twins"),
+        case("foo", [fn("K.m1", {"a": UUTREE, "b": TREE})], "w8:underscore twins"),
+    ]
+    # a StubIndexBuilder asked for stubs after every tracing session; later sessions trace the SAME functions again and
+    # add types for other parameters / the return value (no new function appears)
+    def history(own, sessions, label):
+        c = case(own, [f for sess in sessions for f in sess], label)
+        c["history"] = sessions
+        return c
+    out += [
+        history("foo", [[fn("f2", {"a": INT})], [fn("f2", {"b": BAZ}, STR)]], "w8:builder history"),
+        history("foo", [[fn("f2", {"a": INT}), fn("K.m1", {"a": QUX})], [fn("K.m1", {"b": L(BAZ)}, A_)], [fn("f2", {"c": Z})]],
+                "w8:builder history"),
+        history("utils", [[fn("g3", {"a": A_})], [fn("g3", {"a": A_, "b": D(STR, B)})], [fn("g3", {"c": T()}, DD(STR, INT))]],
+                "w8:builder history"),
+        history("foo", [[fn("f0", {"a": INT})], [fn("f0", {}, QUX), fn("K.m0", {"a": STR})]], "w8:builder history, new function too"),
+        history("foo", [[fn("f0", {"a": INT}, STR)]], "w8:builder history, one session"),
+    ]
     # --- every typing name at every kind of position, as the ONLY annotation of the module stub: whatever the text uses
     #     must be imported because of this one position (imports are merged module-wide, so any second user masks a miss) ---
     kinds = {"List": L(INT), "Set": S(INT), "Dict": D(STR, INT), "DefaultDict": DD(STR, INT), "Tuple": T(INT, STR), "Tuple0": T(),
